@@ -1,7 +1,7 @@
 (** C07 — The thread pool never deadlocks, loses a wake-up or leaks workers.
     Statements only; each closed by [exact] of a lemma in Proofs/Pool*.v.
     See Properties/C06.v for what [reachable code_cfg scr s] quantifies over. *)
-From DivanV Require Import Base.Res Generated.Consts Model.Pool Proofs.Pool Proofs.PoolLive Proofs.PoolEnabled.
+From DivanV Require Import Base.Res Generated.Consts Model.Pool Proofs.Pool Proofs.PoolLive Proofs.PoolEnabled Proofs.PoolMonitor.
 Import PoolM.
 
 (** Obligation on the generated constants ([== 1], [while], [> 0]). *)
@@ -64,3 +64,13 @@ Theorem C07_workers_exit : forall scr s,
   /\ exists ls s', run code_cfg s ls = Some s' /\ cst s' = CDone /\ all_exited s' = true.
 Proof. exact (fun scr s => workers_exit code_cfg scr s C07_cfg_good). Qed.
 Print Assumptions C07_workers_exit.
+
+(** The monitor evaluated on implementation traces reports a model execution
+    that ends in the final state as complete and clean: every broadcast
+    returned, the pool was dropped, every worker exited, no clause violated
+    (deadlock / incomplete / worker-not-exited included). *)
+Theorem C07_monitor_model : forall scr ls s',
+  run code_cfg (init scr) ls = Some s' -> final s' = true ->
+  PoolMon.check scr (panics s') (PoolMon.trace code_cfg (init scr) ls) = [].
+Proof. exact (fun scr ls s' => monitor_complete code_cfg scr ls s' C07_cfg_good). Qed.
+Print Assumptions C07_monitor_model.
